@@ -65,7 +65,33 @@ def osgbString (gx gy : Int) (p : Nat) : List Char :=
   let P : Int := (10 : Int) ^ p
   OSGB.tileLetters (gx / P) (gy / P) ++ digitsW OSGB.digits 10 p (gx % P).toNat ++ digitsW OSGB.digits 10 p (gy % P).toNat
 
-/-- `OSGB::GridReference(x, y, prec)`: exact containing square, else one of the three proved deviation classes, else bad -/
+/-- one reference against the model: `.ok` when it is the code of the exact containing square, a class label when it is the
+coded square of one of the proved deviation classes, a plain mismatch otherwise -/
+def osgbOne (x y : F64) (pn : Nat) (b : List UInt8) (c : List Char) : Verdict :=
+  let sx := OSGB.scaleCoord x pn
+  let sy := OSGB.scaleCoord y pn
+  let ex := osgbExact x pn
+  let ey := osgbExact y pn
+  let e := osgbString ex ey pn
+  if b == strOf e then .ok
+  else if b == strOf c then
+    let dx := osgbCoded sx pn - ex
+    let dy := osgbCoded sy pn - ey
+    if dx.natAbs > 1 || dy.natAbs > 1 then
+      .bad s!"OSGB-offset-wrap OSGB::GridReference: a negative coordinate above -2^-37 m: x - tile*(-1) rounds to the tile size, every digit wraps to 0 and the reference names the square 100 km to the west/south: got {showStr c}, containing square is {showStr e}"
+    else if (dx != 0 && !osgbOffsetExact x sx.h) || (dy != 0 && !osgbOffsetExact y sy.h) then
+      .bad s!"OSGB-offset-sliver OSGB::GridReference: tile -1, the addition x + 10^5 is rounded (by at most 2^-37 m) across a square edge: got {showStr c}, containing square is {showStr e}"
+    else
+      .bad s!"F2-sliver OSGB: position within half an ulp (of the scaled value) below a cell edge is coded into the next cell: got {showStr c}, containing cell is {showStr e}"
+  else .bad s!"OSGB::GridReference: impl={bytesToString b} model={showStr c} exact-cell={showStr e}"
+
+/-- field-wise prefix law between the references at precisions `p` and `p + 1` -/
+def osgbPrefixOK (b b2 : List UInt8) (p : Nat) : Bool :=
+  b.take (2 + p) == b2.take (2 + p) && b.drop (2 + p) == (b2.drop (2 + p + 1)).take p
+
+/-- `OSGB::GridReference(x, y, prec)`: exact containing square, else one of the proved deviation classes, else bad; the
+second result token (when present) is the reference at `prec + 1`: the prefix law is checked here, and a failure that is
+the consequence of a proved deviation class of either reference is reported under that class -/
 def osgbFwdVerdict (x y : F64) (p : Int) (res : List String) : Verdict :=
   let coded := OSGB.gridReference x y p
   match res with
@@ -73,27 +99,23 @@ def osgbFwdVerdict (x y : F64) (p : Int) (res : List String) : Verdict :=
     (match coded with
      | .error _ => .ok
      | .ok s => .bad s!"OSGB::GridReference: implementation threw, model returns {showStr s}")
-  | [r] =>
+  | r :: rest =>
     (match parseS r, coded with
      | some b, .ok c =>
        if x.isNaN || y.isNaN then (if b == strOf c then .ok else .bad s!"OSGB::GridReference: impl={bytesToString b} model={showStr c}") else
        let pn := p.toNat
-       let sx := OSGB.scaleCoord x pn
-       let sy := OSGB.scaleCoord y pn
-       let ex := osgbExact x pn
-       let ey := osgbExact y pn
-       let e := osgbString ex ey pn
-       if b == strOf e then .ok
-       else if b == strOf c then
-         let dx := osgbCoded sx pn - ex
-         let dy := osgbCoded sy pn - ey
-         if dx.natAbs > 1 || dy.natAbs > 1 then
-           .bad s!"OSGB-offset-wrap OSGB::GridReference: a negative coordinate above -2^-37 m: x - tile*(-1) rounds to the tile size, every digit wraps to 0 and the reference names the square 100 km to the west/south: got {showStr c}, containing square is {showStr e}"
-         else if (dx != 0 && !osgbOffsetExact x sx.h) || (dy != 0 && !osgbOffsetExact y sy.h) then
-           .bad s!"OSGB-offset-sliver OSGB::GridReference: tile -1, the addition x + 10^5 is rounded (by at most 2^-37 m) across a square edge: got {showStr c}, containing square is {showStr e}"
-         else
-           .bad s!"F2-sliver OSGB: position within half an ulp (of the scaled value) below a cell edge is coded into the next cell: got {showStr c}, containing cell is {showStr e}"
-       else .bad s!"OSGB::GridReference: impl={bytesToString b} model={showStr c} exact-cell={showStr e}"
+       let v1 := osgbOne x y pn b c
+       match rest with
+       | [r2] =>
+         (match parseS r2, OSGB.gridReference x y (p + 1) with
+          | some b2, .ok c2 =>
+            if osgbPrefixOK b b2 pn then v1 else
+            (match v1, osgbOne x y (pn + 1) b2 c2 with
+             | .bad m, _ => .bad m
+             | _, .bad m => .bad (m ++ s!" [prec {pn + 1}; seen as a failure of the prefix law against the reference at prec {pn}: {bytesToString b}]")
+             | _, _ => .bad s!"prefix-law OSGB: {bytesToString b} (prec {pn}) is not field-wise a prefix of {bytesToString b2}")
+          | _, _ => v1)
+       | _ => v1
      | some b, .error _ => .bad s!"OSGB::GridReference: model rejects, impl returned {bytesToString b}"
      | _, _ => .bad "OSGB::GridReference: parse")
   | _ => .bad s!"OSGB::GridReference: unexpected result {res}"
